@@ -817,7 +817,6 @@ func isNodeCatalogType(t astcatalog.Type) bool {
 
 var nodeTypesSeen = map[string]reflect.Type{}
 
-
 // CheckC19Tree compares, for every node, documented expression (my evaluator), repository interpreter and compiled method.
 func CheckC19Tree(c *Ctx, entry, input string) {
 	st := c19Init(c)
